@@ -911,8 +911,8 @@ func crashSig(stderr string, exitCode int) (string, string) {
 		}
 		if strings.HasPrefix(t, "github.com/openfga/openfga/") && !strings.Contains(t, "verifsim") && len(frames) < 3 {
 			f := strings.TrimPrefix(t, "github.com/openfga/openfga/")
-			if i := strings.Index(f, "("); i > 0 && !strings.HasPrefix(f[i:], "(*") {
-				f = f[:i]
+			if i := strings.LastIndex(f, "("); i > 0 && strings.HasSuffix(f, ")") {
+				f = f[:i] // drop the argument list
 			}
 			if len(frames) == 0 || frames[len(frames)-1] != f {
 				frames = append(frames, f)
